@@ -70,6 +70,7 @@ class Scenario:
 
 class ReaderSelect(Scenario):
     name = "reader_select"
+    has_serial = True       # an integer box index is read in the calling process: the reader's serial mode
 
     def prepare(self, work, seed):
         m, p = _plt(work, "plt_rs", seed)
@@ -79,15 +80,31 @@ class ReaderSelect(Scenario):
         from amr_kitchen import PlotfileCooker
         pck = PlotfileCooker(ctx["p"])
         vals = []
+        rng = random.Random(7)
+
+        def sel(fields, lv, idx):
+            """a pooled selection, or (serial) the same boxes one integer read at a time"""
+            if serial:
+                return [pck[fields][lv][int(i)] for i in idx]
+            return pck[fields][lv][idx]
+
         for lv in range(ctx["m"].nlevels):
             nb = len(ctx["m"].boxes[lv])
             # serial reads in the calling process first (whatever they leave behind - open handles,
             # caches - is inherited by the workers forked for the pooled selections below)
             vals.append(pck[0][lv][0])
             vals.append(pck[[0, 1]][lv][nb - 1])
-            vals.append(pck[:][lv][:])
-            vals.append(pck[1][lv][list(range(nb - 1, -1, -1))])
-            vals.append(pck[[0, 2]][lv][np.arange(nb) % 2 == 0])
+            vals.append([pck[slice(None)][lv][i] for i in range(nb)] if serial else pck[:][lv][:])
+            vals.append(sel(1, lv, list(range(nb - 1, -1, -1))))
+            vals.append([pck[[0, 2]][lv][i] for i in range(0, nb, 2)] if serial
+                        else pck[[0, 2]][lv][np.arange(nb) % 2 == 0])
+            # orders whose sorting permutation is not its own inverse: rotated, shuffled, with repeats
+            rot = list(range(nb))[nb // 3 + 1:] + list(range(nb))[:nb // 3 + 1]
+            shf = rng.sample(range(nb), nb)
+            rep = [shf[0], shf[-1], shf[0]] + shf[1:3]
+            vals.append(sel(0, lv, rot))
+            vals.append(sel([1, 2], lv, np.array(shf)))
+            vals.append(sel("f1", lv, rep))
             vals.append(list(pck["f1"][lv].iter(slice(None, None, 2))))
         return {"values": vals, "paths": []}
 
